@@ -89,6 +89,12 @@ func ParseFile(inputPath string) (areas []textArea, err error) {
 					continue
 				}
 
+				// 同一字段有多个 @tag 注释时合并为一个区域, 否则后一个区域的偏移会失效
+				if l := len(areas); l > 0 && areas[l-1].Start == int(field.Pos()) {
+					areas[l-1].InjectTag += " " + tag
+					continue
+				}
+
 				currentTag := field.Tag.Value
 				area := textArea{
 					Start:      int(field.Pos()),
